@@ -74,19 +74,20 @@ def composeSpec {V E} (zeros : List V) (stages : List (Stage V E)) (args : List 
 def fmapESpec {V E} (zeros : List V) (g : Stage V E) (f : List V → List V) : Result V E :=
   composeSpec zeros [g, { run := fun a => (f a, none) }] []
 
-/-- Join (error form): the already evaluated error is the first stage, `f` the second and last one;
-the results of the last stage are passed on unchanged (also beside its own error) -/
+/-- Join (error form): the already evaluated error is the first stage, `f` the second and last one.
+The property text makes no exception for the last stage: whichever stage fails first, all non-error
+results are zero values — also when that stage is `f` itself and `f` returned something beside its error -/
 def joinESpec {V E} (zeros : List V) (f : Stage V E) (err : Option E) : Result V E :=
   match err with
   | some e => { res := zeros, err := some e, log := [] }
-  | none => { res := (f.run []).1, err := (f.run []).2, log := [(1, [])] }
+  | none => { res := if (f.run []).2.isSome then zeros else (f.run []).1, err := (f.run []).2, log := [(1, [])] }
 
-/-- `deriveJoin(deriveFmap(f, g))`: `g`, then `f` on its result; the last stage's results unchanged -/
+/-- `deriveJoin(deriveFmap(f, g))`: `g`, then `f` on its result; zero values beside whichever error comes first -/
 def bindESpec {V E} (zeros : List V) (g f : Stage V E) : Result V E :=
   match (g.run []).2 with
   | some e => { res := zeros, err := some e, log := [(0, [])] }
-  | none => { res := (f.run (g.run []).1).1, err := (f.run (g.run []).1).2,
-              log := [(0, []), (1, (g.run []).1)] }
+  | none => { res := if (f.run (g.run []).1).2.isSome then zeros else (f.run (g.run []).1).1,
+              err := (f.run (g.run []).1).2, log := [(0, []), (1, (g.run []).1)] }
 
 /-- Fmap (error form) returning a function: by the time it returns, `g` and then `f` have been called
 once each (only `g` if it fails: nil function and that error); the returned function yields exactly
